@@ -179,8 +179,8 @@ func applyTx(st *bstate, tx *types.Tx, h uint64, coinbase bool) {
 		}
 	}
 	for i, o := range tx.Outputs {
-		if o.Amount == 0 {
-			continue
+		if o.Amount == 0 || len(o.ControlProgram) != 1 {
+			continue // zero outputs are not utxos; outputs under the gas-burning programs are spent by the gas scenario only
 		}
 		k := 0
 		if coinbase {
@@ -304,12 +304,17 @@ var kinds = []string{
 	"reward-plus", "reward-minus", "reward-missing", "reward-wrongprog", "reward-split-ok",
 	"spend-missing", "spend-spent", "spend-immature", "spend-locked", "inblock-double", "dup-tx", "gas-over", "none",
 	"spend-immature-edge", "spend-mature-edge-ok", "spend-locked-edge", "veto-edge-ok",
+	"reward-extra-zero-foreign", "reward-extra-zero-same-ok",
 }
+
+// scripted scenarios (built by their own functions, run in every tier)
+var scripted = []string{"reorg-double", "reorg-double-created", "cb-extra-zero-h1"}
+var scriptedGas = []string{"gas-exact-ok", "gas-over-last"}
 
 var spendKinds = map[string]bool{"spend-missing": true, "spend-spent": true, "spend-immature": true, "spend-locked": true, "inblock-double": true, "dup-tx": true,
 	"spend-immature-edge": true, "spend-locked-edge": true}
 var validKinds = map[string]bool{"time-future-ok": true, "tx-timerange-ok": true, "reward-split-ok": true, "none": true,
-	"spend-mature-edge-ok": true, "veto-edge-ok": true}
+	"spend-mature-edge-ok": true, "veto-edge-ok": true, "reward-extra-zero-same-ok": true}
 
 func pickSpendable(g *gen, st *bstate, h uint64) (outRef, bool) {
 	var cand []outRef
@@ -442,7 +447,19 @@ func (g *gen) mutantBlock(parent *node, kind string) (*node, bool) {
 		first := cl.NewTx([]cl.Out{o.out}, []cl.OutSpec{{Amount: 0}}, 0)
 		txs = nil
 		opt.Mutate = func(b *types.Block) { b.Transactions = []*types.Tx{first} }
-	case "reward-plus", "reward-minus", "reward-missing", "reward-wrongprog", "reward-split-ok":
+	case "cb-extra-zero-h1":
+		// height 1 is epoch-first with an empty reward table: a zero placeholder at index 0 is skipped, any further
+		// output (zero amount, reward or foreign program) makes the table differ
+		if h != 1 {
+			return nil, false
+		}
+		extra := cl.OutSpec{Amount: 0}
+		if g.r.Bool() {
+			extra.Program = []byte{0x52}
+		}
+		opt.CoinbaseOuts = []cl.OutSpec{{Amount: 0}, extra}
+		txs = nil
+	case "reward-plus", "reward-minus", "reward-missing", "reward-wrongprog", "reward-split-ok", "reward-extra-zero-foreign", "reward-extra-zero-same-ok":
 		if h%E != 1 {
 			return nil, false
 		}
@@ -462,6 +479,24 @@ func (g *gen) mutantBlock(parent *node, kind string) (*node, bool) {
 		case "reward-split-ok":
 			a := 1 + uint64(g.r.Intn(int(amt/2)))
 			opt.CoinbaseOuts = []cl.OutSpec{{Amount: a}, {Amount: amt - a}}
+		case "reward-extra-zero-foreign":
+			// the amounts match the table exactly, plus a ZERO output to a program outside the table at index >= 1:
+			// only a zero placeholder at index 0 is skipped by checkoutRewardCoinbase
+			switch g.r.Intn(3) {
+			case 0:
+				opt.CoinbaseOuts = []cl.OutSpec{{Amount: amt}, {Amount: 0, Program: []byte{0x52}}}
+			case 1:
+				opt.CoinbaseOuts = []cl.OutSpec{{Amount: 0}, {Amount: amt}, {Amount: 0, Program: []byte{0x52}}}
+			default:
+				opt.CoinbaseOuts = []cl.OutSpec{{Amount: 0}, {Amount: 0, Program: []byte{0x53}}, {Amount: amt}}
+			}
+		case "reward-extra-zero-same-ok":
+			// a zero output to a program that IS in the table adds nothing to its sum: accepted
+			if g.r.Bool() {
+				opt.CoinbaseOuts = []cl.OutSpec{{Amount: amt}, {Amount: 0}}
+			} else {
+				opt.CoinbaseOuts = []cl.OutSpec{{Amount: 0}, {Amount: amt}, {Amount: 0}}
+			}
 		}
 	case "spend-missing":
 		o, ok := pickSpendable(g, parent.st, h)
@@ -604,6 +639,20 @@ func buildScenario(w *cl.World, trunk []*cl.BlockInfo, c *Case, now uint64) *gen
 		g.stuck(cur)
 		return g
 	}
+	switch c.Kind {
+	case "reorg-double", "reorg-double-created":
+		g.reorgDouble(cur, c.Kind == "reorg-double-created")
+		return g
+	case "cb-extra-zero-h1":
+		first := g.validBlock(cur, 0)
+		second := g.validBlock(first, 2)
+		g.mutantBlock(g.nodes[0], c.Kind)
+		g.validBlock(g.validBlock(second, 2), 2)
+		return g
+	case "gas-exact-ok", "gas-over-last":
+		g.gasScenario(cur, c.Kind == "gas-over-last")
+		return g
+	}
 	kind := c.Kind
 	if kind == "" {
 		kind = kinds[g.r.Intn(len(kinds))]
@@ -613,8 +662,7 @@ func buildScenario(w *cl.World, trunk []*cl.BlockInfo, c *Case, now uint64) *gen
 	}
 	steps := 6 + g.r.Intn(7)
 	at := 1 + g.r.Intn(steps-2)
-	if kind == "reward-plus" || kind == "reward-minus" || kind == "reward-missing" || kind == "reward-wrongprog" || kind == "reward-split-ok" ||
-		strings.Contains(kind, "-edge") {
+	if strings.HasPrefix(kind, "reward-") || strings.Contains(kind, "-edge") {
 		at = 0 // heights 17, 21, 25 are epoch-first; the waiting periods end at fixed heights: try from the start
 	}
 	onFork := c.Fork == 1 || (c.Fork == 2 && g.r.Chance(40))
@@ -703,6 +751,199 @@ func (g *gen) stuck(tip *node) {
 	}
 	n := g.validBlock(g.preferred(), 1)
 	g.validBlock(n, 1)
+}
+
+func (g *gen) plain(parent *node, txs []*types.Tx) *node {
+	return g.finish(parent, g.w.NewBlock(parent.bi, txs, cl.BlockOpt{Skip: parent.skip}))
+}
+
+// reorgDouble: a cross-block double spend whose two blocks are attached by ONE reorganisation.  The main branch
+// M1,M2(,M3) is delivered first; the side branch A1 (spends X), A2 (spends X again) - or, with created=true,
+// A1 (turns X into Y), A2 (spends Y), A3 (spends Y again) - is stored block by block and then overtakes the main
+// branch, so that reorganizeChain attaches the whole side branch in one call.
+func (g *gen) reorgDouble(tip *node, created bool) {
+	first := g.validBlock(tip, 0) // h17: split
+	var x outRef
+	for _, o := range first.st.avail {
+		if o.kind == 0 && o.out.Amount() > 4*fee+8000000 {
+			x = o
+		}
+	}
+	m := first
+	nmain := 2
+	if created {
+		nmain = 3
+	}
+	for i := 0; i < nmain; i++ {
+		m = g.plain(m, nil)
+	}
+	t1 := g.mkTx([]outRef{x}, 2, false, 0)
+	a := g.plain(first, []*types.Tx{t1})
+	spentTwice := x
+	if created {
+		y := outRef{cl.Out{Tx: t1, Pos: 0}, 0, a.bi.Block.Height}
+		a = g.plain(a, []*types.Tx{g.mkTx([]outRef{y}, 1, false, 0)})
+		spentTwice = y
+	}
+	bad := g.plain(a, []*types.Tx{g.mkTx([]outRef{spentTwice}, 2, false, 0)})
+	bad.mutant, bad.broken = true, true
+	g.mutant, g.kind, g.spendBad = bad, "reorg-double", true
+	if created {
+		g.kind = "reorg-double-created"
+	}
+	g.validBlock(bad, 0) // a descendant of the broken block: higher than the main branch
+	// the valid branch goes on
+	m = g.validBlock(m, 1)
+	m = g.validBlock(m, 1)
+	g.validBlock(m, 1)
+}
+
+// ---- block gas limit: ~35 transactions burning ~290k gas each
+
+// burner: OP_1 followed by n OP_SHA3 and q OP_NOP - anyone can spend it, at the price of ~64 gas per SHA3
+func burner(n, q int) []byte {
+	p := []byte{0x51}
+	for i := 0; i < n; i++ {
+		p = append(p, 0xaa)
+	}
+	for i := 0; i < q; i++ {
+		p = append(p, 0x61)
+	}
+	return p
+}
+
+const heavyN = 4300
+
+func padProg(p int) []byte { return burner(0, p) }
+
+func gasOf(tx *types.Tx) int64 {
+	gs, err := validation.ValidateTx(tx.Tx, &bc.Block{BlockHeader: &bc.BlockHeader{Version: 1, Height: 1}}, func(p []byte) ([]byte, error) { return p, nil })
+	if err != nil {
+		return -1
+	}
+	return gs.GasUsed
+}
+
+func burnTx(in cl.Out, pad int) *types.Tx {
+	return cl.NewTx([]cl.Out{in}, []cl.OutSpec{{Amount: 1000000, Program: padProg(pad)}}, 0)
+}
+
+// tune finds a burner program (m SHA3, q NOP) and an output padding p such that the transaction spending an output
+// of amount each under that program uses exactly target gas (measured with the real validation.ValidateTx).
+func tune(src cl.Out, each uint64, target int64) (m, q, p int, ok bool) {
+	measure := func(m, q, p int) int64 {
+		parent := cl.NewTx([]cl.Out{src}, []cl.OutSpec{{Amount: each, Program: burner(m, q)}}, 0)
+		return gasOf(burnTx(cl.Out{Tx: parent, Pos: 0}, p))
+	}
+	for m = int(target/64) + 4; m > 0; m-- {
+		g0 := measure(m, 0, 0)
+		if g0 < 0 || g0 > target {
+			continue
+		}
+		diff := target - g0
+		if diff > 400 {
+			return 0, 0, 0, false
+		}
+		q = 0
+		if diff%2 == 1 {
+			if diff < 3 {
+				continue
+			}
+			q, diff = 1, diff-3
+		}
+		p = int(diff / 2)
+		if p > 100 {
+			continue
+		}
+		if measure(m, q, p) == target {
+			return m, q, p, true
+		}
+	}
+	return 0, 0, 0, false
+}
+
+// gasScenario: empty blocks up to height 23 (three rewards mature), a funding block (each reward becomes 17 outputs
+// under the heavy burner program, one of them under a tuned program), then the block under test: K heavy
+// transactions and LAST the tuned one, so that the gas of the block's transactions sums to MaxBlockGas exactly
+// (valid) or exceeds it by one, through the last transaction only (over = true: invalid).
+func (g *gen) gasScenario(tip *node, over bool) {
+	const each, ffee = 62000000, 60000000
+	x := tip
+	for x.bi.Block.Height < 23 {
+		x = g.plain(x, nil)
+	}
+	h := x.bi.Block.Height + 1
+	var rich []cl.Out
+	for _, o := range x.st.avail {
+		if o.kind == 1 && spendable(o, h) && o.out.Amount() > ffee+10*each {
+			rich = append(rich, o.out)
+		}
+	}
+	g.kind, g.valid = "none", true
+	if len(rich) < 3 {
+		return
+	}
+	dummy := cl.NewTx([]cl.Out{rich[0]}, []cl.OutSpec{{Amount: each, Program: burner(heavyN, 0)}}, 0)
+	gh := gasOf(burnTx(cl.Out{Tx: dummy, Pos: 0}, 0))
+	if gh <= 0 {
+		return
+	}
+	k := int(int64(consensus.MaxBlockGas) / gh)
+	target := int64(consensus.MaxBlockGas) - int64(k)*gh
+	if over {
+		target++
+	}
+	if target < 3000 { // too small for any transaction: take one heavy transaction less
+		k--
+		target += gh
+	}
+	tm, tq, tp, ok := tune(rich[0], each, target)
+	if !ok {
+		return
+	}
+	var funds []*types.Tx
+	var heavy []cl.Out
+	var tuned cl.Out
+	for f, in := range rich {
+		n := int((in.Amount() - ffee - 1000) / each)
+		var specs []cl.OutSpec
+		for i := 0; i < n; i++ {
+			prog := burner(heavyN, 0)
+			if f == 0 && i == 0 {
+				prog = burner(tm, tq)
+			}
+			specs = append(specs, cl.OutSpec{Amount: each, Program: prog})
+		}
+		specs = append(specs, cl.OutSpec{Amount: in.Amount() - ffee - uint64(n)*each})
+		tx := cl.NewTx([]cl.Out{in}, specs, 0)
+		funds = append(funds, tx)
+		for i := 0; i < n; i++ {
+			if f == 0 && i == 0 {
+				tuned = cl.Out{Tx: tx, Pos: 0}
+			} else {
+				heavy = append(heavy, cl.Out{Tx: tx, Pos: i})
+			}
+		}
+	}
+	if len(heavy) < k {
+		return
+	}
+	fund := g.plain(x, funds)
+	var txs []*types.Tx
+	for i := 0; i < k; i++ {
+		txs = append(txs, burnTx(heavy[i], 0))
+	}
+	txs = append(txs, burnTx(tuned, tp))
+	m := g.plain(fund, txs)
+	m.mutant = true
+	g.mutant, g.kind, g.valid, g.spendBad = m, "gas-exact-ok", true, false
+	if over {
+		m.broken = true
+		g.kind, g.valid = "gas-over-last", false
+	}
+	// valid blocks beside it and beyond
+	s := g.validBlock(fund, 1)
+	g.validBlock(s, 1)
 }
 
 type labeler struct {
@@ -1278,6 +1519,14 @@ func runC13(c *Ctx) error {
 		add("cb-two-inputs", i%2)
 		add("relock", 0)
 		add("stuck", 0)
+		for _, k := range scripted {
+			add(k, 0)
+		}
+	}
+	for i := 0; i < c.N(1, 2); i++ {
+		for _, k := range scriptedGas {
+			add(k, 0)
+		}
 	}
 	// every mutation kind on the main branch and on a fork
 	rounds := c.N(4, 14)
